@@ -22,6 +22,7 @@ CONSTANTS
   MaxRebootAsks = 1
   MaxCrashes = 0
   RestartRuns <- MCRestartNone
+  FailSets <- MCFailNone
   Mut = "none"
 PROPERTY RequestsAnswered
 PROPERTY ResultDelivered
